@@ -325,9 +325,11 @@ def history_stage(tier):
     ba, bn = A.Build(), native.Build()
     try:
         for g, n, below, cfg in ((S.G5(True), 2, (), dict(pruning=2, penalty='0')), (S.G3(True), 2, S.one_tag(2, 2), dict(pruning=1, penalty='sym')),
-                                 (S.G4(), 2, (), dict(pruning=2, penalty='sym', nbest=1))):
+                                 (S.G4(), 2, (), dict(pruning=2, penalty='sym', nbest=1)),
+                                 # ties by construction: all dependency scores held at 0, the tag scores symbolic
+                                 (S.GT(), 3, (), dict(pruning=3, penalty='0', eq=[('d', i, h, 0) for i in range(3) for h in range(4)]))):
             ob = S.SOb('C11.history[%s]' % g['name'], g, n, below, **cfg)
-            r = A.run_obligation(ba, ob.name, ob.spec('omsnb', True, every), max_seconds=120)
+            r = A.run_obligation(ba, ob.name, ob.spec('omsnb', True, every), max_seconds=(40 if g['name'] == 'GT' and q else 120))
             wit = [rec for rec in r['records'] if S.model_ok(rec['model'])]
             cap = 60 if q else 400
             if len(wit) > cap:
@@ -348,9 +350,9 @@ def history_stage(tier):
                     j['sentences'] = ss
                     j['config'] = dict(base['config'], **c)
                     return j
-                long = dict(tag=[w['tag'][0]] * 3, dep=[[0, -1, -1, -1]] * 3)
+                long = dict(tag=[w['tag'][0]] * (n + 1), dep=[[0] + [-1] * (n + 1)] * (n + 1))       # one token more than max_length below
                 use_pool = len(plan) < (4 if q else 12)       # a real 2-process pool costs >= 1 s per batch (the polling loop sleeps)
-                jobs += [J([u]), J([w]), J([u, w]), J([w, u]), J([u, long, w], max_length=2), J([u, w], processes=2, max_chunk_size=1) if use_pool else J([u, w]), J([w, u, w])]
+                jobs += [J([u]), J([w]), J([u, w]), J([w, u]), J([u, long, w], max_length=n), J([u, w], processes=2, max_chunk_size=1) if use_pool else J([u, w]), J([w, u, w])]
                 plan.append((i, len(jobs) - 7))
                 tight.append((i, u, w, J))
             res = bn.run(jobs, timeout=1500)
@@ -380,6 +382,39 @@ def history_stage(tier):
                         break
                 if not (len(ulw['sentences']) == 3 and len(ulw['sentences'][1]) == 1 and ulw['sentences'][1][0]['placeholder']):
                     bad.append(('history.too-long-sentence-not-a-lone-placeholder', dict(grammar=g['name'], got=ulw['sentences'][1])))
+            # every ordered pair among a few sentences with different solo results: the earlier sentence extends the category table and the
+            # rule cache in its own order (ids of rule-derived categories depend on it); the later one must come out as it does alone
+            K = 10 if q else 18
+            solo, seen_keys = [], set()
+            for (i, k) in plan:
+                for sent, r0 in ((sents[i], res[k]), (sents[i + 1], res[k + 1])):
+                    if r0.get('error') or r0['n_results'] != 1 or not r0['sentences']:
+                        continue
+                    ky = tuple((t['key'], t['score']) for t in r0['sentences'][0])
+                    if ky not in seen_keys and len(solo) < K:
+                        seen_keys.add(ky)
+                        solo.append((sent, [(t['key'], t['score'], t['placeholder']) for t in r0['sentences'][0]]))
+            base = ob.job(wit[0]['model'])
+            base['config']['unary_penalty'] = 0.0 if cfg.get('penalty') == '0' else float(max(pens))
+            # solo results again under the one configuration of this stage (the pairs above ran under pair-specific penalties)
+            sres0 = bn.run([dict(base, sentences=[a[0]]) for a in solo], timeout=600) if solo else []
+            solo = [(a[0], [(t['key'], t['score'], t['placeholder']) for t in x['sentences'][0]]) for a, x in zip(solo, sres0)
+                    if not x.get('error') and x['n_results'] == 1 and len(x['sentences']) == 1]
+            cjobs = [dict(base, sentences=[a[0], b[0]]) for a in solo for b in solo]
+            cres = bn.run(cjobs, timeout=900) if cjobs else []
+            info['batches'] += len(cjobs) + len(sres0)
+            info['ordered_pairs'] = info.get('ordered_pairs', 0) + len(cjobs)
+            for (a, b), x in zip([(a, b) for a in solo for b in solo], cres):
+                if x.get('error'):
+                    bad.append(('history.run-raises', dict(grammar=g['name'], error=x['error'][:300])))
+                    break
+                if x['n_results'] != 2 or len(x['sentences']) != 2:
+                    bad.append(('history.result-count', dict(grammar=g['name'], got=x['n_results'], expected=2)))
+                    break
+                got = [[(t['key'], t['score'], t['placeholder']) for t in sres] for sres in x['sentences']]
+                if got[1] != b[1] or got[0] != a[1]:
+                    bad.append(('history.result-differs.after-a-sentence-that-created-categories-in-another-order', dict(grammar=g['name'], got=got, solo=[a[1], b[1]], job=dict(base, sentences=[a[0], b[0]]))))
+                    break
             # the step budget is per sentence: with max_step = the larger of the two solo pop counts both sentences still parse in one batch
             tjobs, tplan = [], []
             for (i, k), (_, u, w, J) in list(zip(plan, tight))[:(8 if q else 40)]:
